@@ -143,6 +143,48 @@ fn gen_f64_weights(r: &mut Rng, big: bool) -> (&'static str, Vec<f64>) {
     }
 }
 
+/// the generator shared with `gen14` of coq/Run/RunC14.v (large family)
+fn lcg(x: u64) -> u64 {
+    (x * 1103515245 + 12345) & 0x7fff_ffff
+}
+#[allow(clippy::too_many_arguments)]
+fn gen_large(n: usize, k: usize, t: usize, wmax: u64, mult: u64, seed: u64, mode: u64) -> (Vec<i64>, Vec<usize>) {
+    let mut x = seed;
+    let mut ws = Vec::with_capacity(n);
+    let mut ps = Vec::with_capacity(n);
+    for i in 0..n {
+        let tail = i >= n - t;
+        x = lcg(x);
+        let mut w = 1 + (x >> 16) % wmax;
+        if tail {
+            w *= mult;
+        }
+        x = lcg(x);
+        let r = x >> 16;
+        let q = if mode == 0 {
+            r % k as u64
+        } else if tail {
+            k as u64 - 1
+        } else {
+            r % (k as u64 - 1)
+        };
+        ws.push(w as i64);
+        ps.push(q as usize);
+    }
+    (ws, ps)
+}
+
+fn exact_gap(ws: &[i64], p: &[usize], k: usize) -> (Vec<i128>, i128) {
+    let mut l = vec![0i128; k];
+    for (w, q) in ws.iter().zip(p) {
+        if *q < k {
+            l[*q] += *w as i128;
+        }
+    }
+    let g = l.iter().max().unwrap() - l.iter().min().unwrap();
+    (l, g)
+}
+
 /// One call on genuine f64 weights, on a rayon pool of ONE thread (fixed summation order in
 /// compute_parts_load).  Prints the outcome; used in a child process for VnBest, whose loop may not end.
 fn run_f64(alg: u64, wf: Vec<f64>, p0: Vec<usize>) -> Out {
@@ -328,11 +370,88 @@ fn main() {
     let mut reuse_calls = 0usize;
     let mut f64_genuine = 0usize;
     let mut f64_hangs = 0usize;
+    let mut large = 0usize;
     let big = a.tier == "thorough";
     let mut idx = 0usize;
     while idx < a.cases {
         let mut r = rng.fork();
         let alg = r.below(2);
+        if r.chance(1, 400) || idx % 800 == 3 {
+            // ---- large family: more than 4096 weights, a length that is not a multiple of 4096, and in the
+            // last len % 4096 positions enough weight to decide which part is the heaviest (mode 1: ALL the
+            // weight of the last part; mode 0: weights (n-t)/t times larger, random parts).  Described to Coq
+            // by the generator's parameters; the output as its difference from the input.  Judged by the
+            // certified checker on the exact loads (the model is not run on inputs of this size).
+            let n = *r.pick(&[4097usize, 4104, 5000, 8191, 8193, 9000, 9999]);
+            let k = r.range(2, 8) as usize;
+            let t = n % 4096;
+            let wmax = *r.pick(&[1u64, 10, 100]);
+            let mode = r.below(2);
+            let mult = if mode == 0 {
+                1 + ((n - t) / t) as u64
+            } else {
+                1 + 2 * (((n - t) + t * (k - 1) - 1) / (t * (k - 1))) as u64
+            };
+            let seed = r.below(1 << 31);
+            let flt = r.chance(1, 3);
+            let this = idx;
+            idx += 1;
+            if let Some(o) = a.only {
+                if o != this {
+                    continue;
+                }
+            }
+            large += 1;
+            let (ws, p0) = gen_large(n, k, t, wmax, mult, seed, mode);
+            let part = if alg == 0 { Part::B(coupe::VnBest) } else { Part::F(coupe::VnFirst) };
+            let res = call(part, p0.clone(), ws.clone(), flt);
+            if flt {
+                c.f64_runs += 1;
+            }
+            let (status, diff, impl_json): (u64, Vec<(usize, usize)>, String) = match &res {
+                Guarded::Done(((Ok(cnt), p), _)) => {
+                    let d: Vec<(usize, usize)> =
+                        p.iter().zip(&p0).enumerate().filter(|(_, (x, y))| x != y).map(|(i, (x, _))| (i, *x)).collect();
+                    if !d.is_empty() {
+                        c.moved += 1;
+                    }
+                    let (l0, g0) = exact_gap(&ws, &p0, k);
+                    let (l1, g1) = exact_gap(&ws, p, k);
+                    let j = format!(
+                        "{{\"ok\":\"(see output_diff)\",\"count\":{},\"loads_in\":{:?},\"gap_in\":{},\"loads_out\":{:?},\"gap_out\":{}}}",
+                        cnt, l0, g0, l1, g1
+                    );
+                    (if p.len() == p0.len() { 0 } else { 2 }, d, j)
+                }
+                Guarded::Done(((Err(e), _), _)) => (2, vec![], format!("{{\"err\":{}}}", json_str(&format!("{:?}", e)))),
+                Guarded::Panic(m) => {
+                    c.panics += 1;
+                    (3, vec![], format!("{{\"panic\":{}}}", json_str(m)))
+                }
+                Guarded::Hang => {
+                    c.hangs += 1;
+                    (4, vec![], "{\"hang\":true}".to_string())
+                }
+            };
+            let dcoq: Vec<String> = diff.iter().map(|(i, v)| format!("({},{})", i, v)).collect();
+            let coq = format!(
+                "mk14L {}%N {} {} {} {} {} {} {} {} {} [{}]%N",
+                alg, coq_bool(flt), n, k, t, wmax, mult, seed, mode, status, dcoq.join(";")
+            );
+            let djson: Vec<String> = diff.iter().map(|(i, v)| format!("[{},{}]", i, v)).collect();
+            let json = format!(
+                "{{\"algorithm\":\"{}\",\"f64\":{},\"large\":{{\"n\":{},\"parts\":{},\"tail\":{},\"wmax\":{},\"tail_mult\":{},\"seed\":{},\"mode\":{},\"generator\":\"x=(x*1103515245+12345)&0x7fffffff; w=1+(x>>16)%wmax (*tail_mult in the last `tail` positions); next x; id=(x>>16)%parts (mode 1: %(parts-1) in the head, parts-1 in the tail)\"}},\"weights\":{},\"partition\":{},\"output_diff\":[{}],\"impl\":{}}}",
+                if alg == 0 { "VnBest" } else { "VnFirst" },
+                flt, n, k, t, wmax, mult, seed, mode,
+                json_i64s(&ws),
+                json_usizes(&p0),
+                djson.join(","),
+                impl_json
+            );
+            let key = format!("large|{}|{}|{}|{}|{}|{}|{}|{}", alg, flt, n, k, wmax, mult, seed, mode);
+            w.push(coq, json, &key, true, &format!("{}:large", if alg == 0 { "best" } else { "first" }));
+            continue;
+        }
         if r.chance(1, 8) {
             // ---- reuse stream: ONE partitioner value (a unit struct today) for a short sequence of calls:
             // its own output again, other weights on that output, an input of another length.
@@ -512,7 +631,7 @@ fn main() {
         }
     }
     w.finish(&format!(
-        "\"hangs\":{},\"panics\":{},\"f64_runs\":{},\"f64_genuine\":{},\"f64_vnbest_hangs\":{},\"moved\":{},\"reuse_sequences\":{},\"reuse_calls\":{}",
-        c.hangs, c.panics, c.f64_runs, f64_genuine, f64_hangs, c.moved, reuse_sequences, reuse_calls
+        "\"hangs\":{},\"panics\":{},\"f64_runs\":{},\"f64_genuine\":{},\"f64_vnbest_hangs\":{},\"moved\":{},\"reuse_sequences\":{},\"reuse_calls\":{},\"large\":{}",
+        c.hangs, c.panics, c.f64_runs, f64_genuine, f64_hangs, c.moved, reuse_sequences, reuse_calls, large
     ));
 }
